@@ -183,8 +183,7 @@ Proof.
   split; [vm_compute; reflexivity|].
   split. { unfold scheme_text. split; [vm_compute; reflexivity|]. split; [vm_compute; discriminate| vm_compute; reflexivity]. }
   split; [vm_compute; reflexivity|]. split; [vm_compute; discriminate|]. split; [vm_compute; discriminate|].
-  split. { unfold settled_host. split; [vm_compute; discriminate|]. repeat (split; [vm_compute; reflexivity|]).
-           split; [intros H; vm_compute in H; discriminate H| vm_compute; reflexivity]. }
+  split. { unfold settled_host. repeat split; try (vm_compute; reflexivity); try (vm_compute; discriminate). }
   split; [vm_compute; reflexivity|]. split; [unfold clean_path; split; vm_compute; reflexivity|].
   split; [vm_compute; discriminate| vm_compute; reflexivity].
 Qed.
